@@ -224,6 +224,9 @@ type Result struct {
 	CloseTook                   time.Duration
 	CloseHung                   bool
 	CloseStarted, CloseReturned time.Time
+	// MaxJitter: the longest oversleep a probe goroutine (sleeping 1 ms in a loop) saw while the scenario ran: how late
+	// the machine itself was.  Rules that bound a latency are judged only when the machine was on time.
+	MaxJitter time.Duration
 	Writer                      *kafka.Writer
 	Violations                  []string
 	Stalls                      int
@@ -291,6 +294,24 @@ func recordSize(r refcodec.Record) int64 {
 // Run executes the scenario.
 func Run(c Case) *Result {
 	res := &Result{Case: c, Choice: map[ID][2]any{}, OfferedN: map[ID]int{}, Logs: map[string][][]refcodec.Record{}}
+	stopProbe, probeDone := make(chan struct{}), make(chan time.Duration)
+	go func() {
+		var max time.Duration
+		for {
+			select {
+			case <-stopProbe:
+				probeDone <- max
+				return
+			default:
+			}
+			t0 := time.Now()
+			time.Sleep(time.Millisecond)
+			if d := time.Since(t0) - time.Millisecond; d > max {
+				max = d
+			}
+		}
+	}()
+	defer func() { close(stopProbe); res.MaxJitter = <-probeDone }()
 	nw := memnet.New()
 	cl := fakecluster.New(nw, c.Brokers)
 	res.Cluster, res.Net = cl, nw
